@@ -163,6 +163,26 @@ fn hot_keys_spec(ctx: &Ctx, buffer: usize) -> SeqSpec {
     }
 }
 
+/// A configured clock that starts at the UNIX epoch itself (the library ships such a clock for its own tests): puts
+/// with a TTL, sweeps in the first seconds after the epoch, reads.
+fn epoch_spec(ctx: &Ctx) -> SeqSpec {
+    SeqSpec {
+        name: "seq/clock-at-the-unix-epoch".into(),
+        setup: Setup { weight: 100, queue: 1, pool: 1, buffer: 1, shards: 2, t0_ms: 0, ..Setup::default() },
+        world: Default::default(),
+        prefix: vec![],
+        alphabet: vec![put_ttl(1, 1, 1000), put_ttl(2, 1, 300), put(3, 1), Op::Advance { ms: 500 }, Op::Advance { ms: 1000 }, Op::TickWait, get(1), Op::Delete { k: 1 }],
+        depth: if ctx.quick() { 4 } else { 6 },
+        allow: None,
+        oracle: oracle(),
+        keys: vec![1, 2, 3],
+        canon_sketch: false,
+        ghost_key: None,
+        max_states: 2_000_000,
+        time_cap_s: if ctx.quick() { 10.0 } else { 300.0 },
+    }
+}
+
 pub fn def(ctx: &Ctx) -> PropertyDef {
     let mut scenarios: Vec<Scenario> = Vec::new();
     let configs: Vec<(i64, u64)> = if ctx.quick() { vec![(1, 1), (30, 2), (i64::MAX, 3)] } else { vec![(1, 1), (1, 3), (30, 1), (30, 2), (30, 3), (i64::MAX, 1), (i64::MAX, 3)] };
@@ -170,6 +190,7 @@ pub fn def(ctx: &Ctx) -> PropertyDef {
         let name = spec(ctx, w, c).name;
         scenarios.push(seq_scenario(move |cx| spec(cx, w, c), &name));
     }
+    scenarios.push(seq_scenario(epoch_spec, "seq/clock-at-the-unix-epoch"));
     for buffer in [1usize, 3] {
         let name = hot_keys_spec(ctx, buffer).name;
         scenarios.push(seq_scenario(move |cx| hot_keys_spec(cx, buffer), &name));
